@@ -154,6 +154,11 @@ PLAN["C06"]["fidelity"] = FID_HEAP
 PLAN["C05"]["proofs"] = [dict(module="RingInv.tla", what="for every capacity >= 1: start, end in range, size = calculateSize(start, end, full), "
                               "full <=> size = capacity is an inductive invariant of the ring's index arithmetic (RingIdx, which MCRing shows the ring model refines)")]
 PLAN["C15"]["proofs"] = PLAN["C05"]["proofs"]
+PLAN["C03"]["proofs"] = [dict(module="ArrayCap.tla", what="for every length and argument count: length <= capacity is an inductive invariant of the array "
+                              "list's growBy / shrink / Clear / load arithmetic")]
+PLAN["C17"]["proofs"] = PLAN["C03"]["proofs"]
+PLAN["C08"]["proofs"] = [dict(module="CursorIdx.tla", what="for every container size: the index iterator's index equals the abstract cursor position, stays in "
+                              "-1..size, and Next/Prev/First/Last answer withinRange(index) (inductive invariant)")]
 
 # ---- texts for MANIFEST.json -----------------------------------------------------------------------
 _MC = ("TLC explores the bounded TLA+ models of the property's state machine exhaustively, and every (reachable concrete "
